@@ -58,7 +58,8 @@ CLAIM = dict(
          "like LoopContext on the awaited items, hence like the documented loop specification (C07); pairs_known, "
          "no_inplace_accumulation, variants_are_pairs, producers_known, sync_only_consumers_known — by decide over the inventory "
          "read from filters.py/tests.py on this run: the twelve pairs with their shapes, no in-place accumulation, the five "
-         "async-generator producers, and the list of iterable consumers without async variant. Statement level is NOT a theorem: "
+         "async-generator producers, the list of iterable consumers without async variant, and laziness_preserved_except_known "
+         "(an async variant is an async generator exactly when its sync function is a generator, except unique and slice). Statement level is NOT a theorem: "
          "for every generated program the async-mode generated Python with await/auto_await/auto_aiter/async def/async for/"
          "AsyncLoopContext/aclose scaffolding erased must equal the sync-mode generated Python (ast-normalised), and every program "
          "is rendered through render/generate/stream (sync) and render/render_async/generate_async/generate (async) for "
@@ -66,7 +67,8 @@ CLAIM = dict(
          "coroutine functions and iterables as generators / async generators; outputs or exception classes must be equal.",
     note="Trusted: Lean kernel; hand model Model/Await.lean (unit correspondence); translator for AsyncPairs/ExprTables; the erasure "
          "rules of the translation validation; event-loop semantics assumed. Known: consumers without an async variant cannot "
-         "take the result of map/select/reject/selectattr/rejectattr in async mode (DESIGN F17).",
+         "take the result of map/select/reject/selectattr/rejectattr in async mode (DESIGN F17); async unique/slice drain their input "
+         "eagerly (Findings/F17.lean proves both full-strength statements false over the inventory).",
     design_ref="§5 C09",
 )
 
@@ -299,6 +301,9 @@ def expr_pools(ctx, rng):
     return pools
 
 
+UNDEFINED_CLASSES = ["Undefined", "Undefined", "Undefined", "StrictUndefined", "ChainableUndefined", "DebugUndefined"]
+
+
 def lcode_program(jinja2, cls, templates, autoescape):
     """→ (status, detail, counts) with status in ok / syntax / not-erasable / differs"""
     total = {}
@@ -339,11 +344,14 @@ def run_programs(ctx, res, jinja2, runner, boost):
     n_tg = ctx.pick(40, 300) * boost
     n_ex = ctx.pick(60, 500) * boost
     stats = {"programs": 0, "renders": 0, "lcode_templates_ok": 0, "lcode_syntax_rejected": 0, "base_ok": 0, "base_err": {},
-             "features": {}, "classes": {}, "erased": {}, "e2e_differences": 0, "lcode_differences": 0}
+             "features": {}, "classes": {}, "undefined_classes": {}, "erased": {}, "e2e_differences": 0, "lcode_differences": 0}
     distinct = set()
     samples = []
 
     def one(templates, main, spec, feats, classes, ae, modes):
+        undef = rng.choice(UNDEFINED_CLASSES)
+        env_kw = {} if undef == "Undefined" else {"undefined": getattr(jinja2, undef)}
+        stats["undefined_classes"][undef] = stats["undefined_classes"].get(undef, 0) + 1
         for ci, cls in enumerate(classes):
             stats["programs"] += 1
             stats["classes"][cls] = stats["classes"].get(cls, 0) + 1
@@ -357,13 +365,13 @@ def run_programs(ctx, res, jinja2, runner, boost):
                 for k, v in counts.items():
                     stats["erased"][k] = stats["erased"].get(k, 0) + v
             nontrivial = sum(v for k, v in counts.items() if k != "async def") > 0
-            case = {"templates": templates, "main": main, "spec": spec, "cls": cls, "autoescape": ae}
+            case = {"templates": templates, "main": main, "spec": spec, "cls": cls, "autoescape": ae, "undefined": undef}
             if st == "ok":
                 stats["lcode_templates_ok"] += len(templates)
             elif st == "syntax":
                 stats["lcode_syntax_rejected"] += 1
             # --- end-to-end
-            base, outs, diffs = L.oracle(jinja2, runner, cls, templates, main, spec, ae, modes)
+            base, outs, diffs = L.oracle(jinja2, runner, cls, templates, main, spec, ae, modes, env_kw)
             stats["renders"] += len(outs)
             if base and base[0] == "ok":
                 stats["base_ok"] += 1
@@ -374,6 +382,16 @@ def run_programs(ctx, res, jinja2, runner, boost):
             d = dict(outs)
             for a, b in diffs:
                 stats["e2e_differences"] += 1
+                shape = a.split(":")[-1]
+                if (cls == "NativeEnvironment" and a.startswith("sync:render:") and d[a][0] == "err" and d[b][0] == "err"
+                        and d[b] == d.get(f"sync:generate:{shape}")):
+                    # not async against sync: the sync environment's own render and generate disagree in the same way
+                    res.violate("C09:e2e:NativeEnvironment:render-concat-order",
+                                f"NativeEnvironment undefined={undef}: {a} raises {d[a][1]} but sync generate and every async entry point raise "
+                                f"{d[b][1]} for {templates[main][:300]!r} — NativeTemplate.render feeds the running generator to native_concat, "
+                                "so a piece whose str() raises is reported before a later error of the template; render_async collects the "
+                                "pieces first", dict(case, first=a, second=b, outputs={k: list(v) for k, v in outs}))
+                    continue
                 res.violate(diff_key(cls, b), f"{cls} autoescape={ae}: {a} gives {d[a]!r} but {b} gives {d[b]!r} for {templates[main][:300]!r}",
                             dict(case, first=a, second=b, outputs={k: list(v) for k, v in outs}))
             if st in ("not-erasable", "differs"):
@@ -386,7 +404,7 @@ def run_programs(ctx, res, jinja2, runner, boost):
                     stats["intensified"] = stats.get("intensified", 0) + 1
                     for k in range(40 if stats["intensified"] <= 12 else 0):
                         spec2 = G.data_spec(ctx.rng("intensify", phash(templates, cls, ae), k))
-                        base2, outs2, diffs2 = L.oracle(jinja2, runner, cls, templates, main, spec2, ae, L.MODES)
+                        base2, outs2, diffs2 = L.oracle(jinja2, runner, cls, templates, main, spec2, ae, L.MODES, env_kw)
                         stats["renders"] += len(outs2)
                         if diffs2:
                             d2 = dict(outs2)
@@ -559,7 +577,13 @@ def run(ctx, res):
                         {"proof_broken": ctx.proof_broken, "tie_broken": ctx.tie_broken, "gen_changed": ctx.gen_changed,
                          "searched": "4x programs, pair sweep, consumer and consumption probes: no input on which async and sync differ"},
                         no_input=True)
+    # Findings/F17.lean proves, over the present inventory, that the full-strength statements ConsumersHaveVariants and
+    # LazinessPreserved are false (the model exhibits the defects the probes exhibit on the code)
+    f_ok, _log = core.lake_build(["JinjaV.Findings.F17"]) if not ctx.proof_broken else (False, "")
+    findings_note = ("F17 and the unique/slice laziness finding reproduce in the model (Findings/F17.lean builds)" if f_ok else
+                     "Findings/F17.lean does not build: a known finding no longer reproduces in the model (or the proofs are broken)")
     res.coverage.update({
+        "findings_in_model": findings_note,
         "evaluations": n_unit + ex["renders"] + pr["renders"] + ps["evaluations"] + cp["evaluations"],
         "distinct_nontrivial": pr["distinct"] + ex["expressions"],
         "rule": ("programs: generated template sets (expressions from the C02/C08 generator; calls, attribute/item access, filters and tests, "
@@ -585,8 +609,9 @@ def replay(ctx, case):
     runner = L.Runner()
     try:
         if "templates" in c and "spec" in c:
+            undef = c.get("undefined", "Undefined")
             base, outs, diffs = L.oracle(jinja2, runner, c.get("cls", "Environment"), c["templates"], c.get("main", "main"), c["spec"],
-                                         c.get("autoescape", False), L.MODES)
+                                         c.get("autoescape", False), L.MODES, {} if undef == "Undefined" else {"undefined": getattr(jinja2, undef)})
             return {"outputs": {k: list(v) for k, v in outs}, "differences": diffs}
         return c
     finally:
